@@ -2,6 +2,7 @@
 import inspect
 import opcode
 import sys
+import threading
 
 TOOL = 4
 E = sys.monitoring.events
@@ -17,6 +18,8 @@ class Flight:
         self.done = []  # completion order
         self.call_events = 0
         self.active = False
+        self.home = threading.get_ident()  # the thread the tracer under test is installed on
+        self.off_thread_ids = set()  # id() of frames that finished on another thread (ids only: the frames must stay collectable)
 
     # -- helpers
     def _named(self, code):
@@ -39,7 +42,7 @@ class Flight:
         rec = {
             "code": code, "qual": code.co_qualname, "args": self._snapshot(frame, code), "yields": [], "suspensions": 0,
             "resumes": [], "yields_before_resume": [], "ret": None, "exc": None, "thrown": 0, "last": "start", "seq": None,
-            "flags": code.co_flags, "const_return": False,
+            "flags": code.co_flags, "const_return": False, "off_thread": threading.get_ident() != self.home,
         }
         self.live[frame] = rec
 
@@ -68,6 +71,9 @@ class Flight:
             rec["last"] = "yield"
 
     def _finish(self, frame, rec):
+        if threading.get_ident() != self.home:
+            rec["off_thread"] = True  # the profile function is per thread: the tracer cannot have seen this end
+            self.off_thread_ids.add(id(frame))
         rec["seq"] = len(self.done)
         self.done.append(rec)
         self.live.pop(frame, None)
